@@ -441,6 +441,8 @@ func roSpaces(mode int, tier string) []mc.Space {
 		Rule: "for every supported Exif field alone in a record, in both byte orders: value shapes its parser does not expect (count 0; strings/dates of 0, 1 and 3 characters with and without NUL; a rational as two SHORTs / one LONG / no value; BYTE x4) x every accepting entry point"})
 	sp = append(sp, mc.Space{Name: "shared-value-bytes", H: roSeedsPlain(mode, amplificationSeeds()), NoLevels: true, Isolate: true,
 		Rule: "TIFF blocks whose 40-83 string fields name overlapping or identical value bytes (steps 0, 1, 64, 100; counts 1000-4096), alone and repeated as 24 and 64 Exif segments of one JPEG in alternating byte orders x every accepting entry point: the work and memory of a decode must follow the file's length, not the number of names for the same bytes"})
+	sp = append(sp, mc.Space{Name: "jpeg-marker-structures", H: roSeedsPlain(mode, jpegStructureSeeds()), NoLevels: true, Isolate: true,
+		Rule: "JPEG streams of up to 3 tokens over {bare SOI, bare EOI, Exif, XMP, COM} after the SOI, and the stand-alone markers TEM / RST0 / RST7 (no length field) before or after one token followed by another, then the image: every JPEG entry point"})
 	sp = append(sp, mc.Space{Name: "length-and-count-pairs", H: roLengthAndCount(mode, gs), NoLevels: true, Isolate: true,
 		Rule: "for every box, segment or chunk length field of every generated seed and every count / length / value field inside the span it declares: the length set to {0x02000000, 0x7ffffff0, 0xfffffff0, 0xffff} and the inner field to {all ones, 0x00400000, 0x7fffffff, 0x0fffffff} together (a count validated against a declared length that is itself unvalidated) x every accepting entry point"})
 	sp = append(sp, mc.Space{Name: "large-payload-malformations", H: roMalformations(mode, bigSeeds(), mb), Bound: mb, Isolate: true,
